@@ -41,3 +41,9 @@ func VerifAPISets() []string {
 	return []string{EndpointsRead, EndpointsStatus, EndpointsTransaction, EndpointsWallet,
 		EndpointsInsecureWalletSeed, EndpointsNetCtrl, EndpointsStorage}
 }
+
+// VerifServerHandler returns the handler (the complete mux with every middleware) of a created Server.
+func VerifServerHandler(s *Server) http.Handler { return s.server.Handler }
+
+// VerifServerClose releases the listener of a Server that was never served.
+func VerifServerClose(s *Server) { s.listener.Close() } //nolint:errcheck
